@@ -58,25 +58,46 @@ def overlay_map():
 
 
 def build_harness(race=False):
+    """Builds the harness into /repo's module.  When the whole harness does not compile (a change of /repo altered an API one
+    harness file uses), the files the compiler complains about are left out and the build is repeated, so that only the areas
+    served by those files are lost (their checks then report a broken correspondence), not every property's check.  main.go or
+    an error inside /repo's own packages cannot be left out: then there is no harness."""
     os.makedirs(BUILD, exist_ok=True)
     out = HARNESS_BIN + ("-race" if race else "")
     if os.path.exists(out):
         os.remove(out)  # never run a stale binary
     ov = os.path.join(BUILD, "overlay.json")
-    with open(ov, "w") as fh:
-        json.dump({"Replace": overlay_map()}, fh, indent=1)
-    cmd = ["go", "build", "-tags", "verif", "-overlay", ov, "-o", out]
+    rep = overlay_map()
+    dropped, first_err = [], ""
     env = dict(GOENV)
+    cmd = ["go", "build", "-tags", "verif", "-overlay", ov, "-o", out]
     if race:
         cmd.insert(2, "-race")
         env["CGO_ENABLED"] = "1"
     cmd.append("./internal/verifharness")
     t = time.time()
-    p = sh(cmd, cwd=REPO, env=env, timeout=900)
-    if p.returncode != 0:
-        return None, p.stderr[-6000:]
-    log("[harness] built in %.1fs" % (time.time() - t))
-    return out, ""
+    for _ in range(8):
+        with open(ov, "w") as fh:
+            json.dump({"Replace": rep}, fh, indent=1)
+        p = sh(cmd, cwd=REPO, env=env, timeout=900)
+        if p.returncode == 0:
+            log("[harness] built in %.1fs%s" % (time.time() - t, (" WITHOUT " + ", ".join(dropped)) if dropped else ""))
+            HARNESS_DROPPED[:] = dropped
+            return out, ""
+        first_err = first_err or p.stderr
+        bad = set()
+        for m in re.finditer(r"^(?:\./)?([^\s:]+\.go):\d+", p.stderr, re.M):
+            k = os.path.normpath(os.path.join(REPO, m.group(1)))
+            if k in rep and os.path.basename(k) != "main.go":
+                bad.add(k)
+        if not bad:
+            break
+        for k in sorted(bad):
+            dropped.append(os.path.relpath(rep.pop(k), VERIF))
+    return None, first_err[-6000:]
+
+
+HARNESS_DROPPED = []   # harness sources left out of the last build (see build_harness)
 
 
 # ---------------------------------------------------------------- Lean build + audit
@@ -184,9 +205,18 @@ def run_harness(args, timeout=3000, binary=None, env=None):
     return p
 
 
+# the areas whose model imports a file regenerated from /repo have their own executable: when the translator cannot read the
+# sources (no Generated/<X>.lean) only the properties decided with that file lose their driver
+DRIVER_OF_AREA = {"router": "driver_router"}
+
+
+def driver_bin(area):
+    return os.path.join(os.path.dirname(DRIVER_BIN), DRIVER_OF_AREA.get(area, "driver"))
+
+
 def run_driver(area, infile, outfile, timeout=3000):
     with open(infile) as fin:
-        p = subprocess.run([DRIVER_BIN, area], stdin=fin, capture_output=True, text=True, timeout=timeout)
+        p = subprocess.run([driver_bin(area), area], stdin=fin, capture_output=True, text=True, timeout=timeout)
     with open(outfile, "w") as fh:
         fh.write(p.stdout)
     return p
@@ -271,8 +301,8 @@ class Ctx:
             self.prop, self.prop, self.prop, "; lake env leanchecker Props.%s" % self.prop if self.tier == "thorough" else "")
         return not self.l1_broken
 
-    def ensure_driver(self):
-        ok, out = lake_build(["driver"])
+    def ensure_driver(self, area=None):
+        ok, out = lake_build([DRIVER_OF_AREA.get(area, "driver")])
         if not ok:
             self.l2_broken.append({"stream": "driver-build", "detail": out[-1500:]})
         return ok
